@@ -104,7 +104,13 @@ class C09Session(Session):
                 kind = vop["bad"]["kind"]
                 self.log.add("rej", self.step, kind, out, sdigest(post))
                 if out == "ok":
-                    self.stats["reject_variant_accepted"] += 1  # not this property's business (C17)
+                    self.stats["reject_variant_accepted"] += 1  # acceptance is not this property's business (C17)
+                    # ... but whatever is accepted must leave a well-formed path
+                    if t._position.ndim != 2 or len(t._position) < 1 or len(t._orientation) != len(t._position):
+                        raise Violation("path_lengths_equal",
+                                        f"{op['op']} with {vop['bad']['field']} ({kind}) was accepted and left a position "
+                                        f"path of shape {t._position.shape} and an orientation path of length "
+                                        f"{len(t._orientation)}", op=op["op"], form=op.get("form"), fault="reject:" + kind)
                     continue
                 self.fault_fired("reject:" + kind)
                 self.transition(op["op"], op.get("form"), "reject", kind, out)
@@ -273,14 +279,17 @@ class Sim:
             kinds = ["setter", "reset"]
         op = pathops.gen_path_op(rng, o, N, kinds=kinds, forms=cfg["forms"], wild=cfg["wild_start"],
                                  alias=cfg.get("alias", True))
+        if cfg.get("alias", True) and rng.random() < 0.04:
+            return {"op": "iadd_position", "o": o, "d": gen.vec3(rng)}
         if cfg.get("alias", True) and len(w.objs) > 1 and rng.random() < 0.1:
             j = rng.choice([k for k in range(len(w.objs)) if k != o])
+            tok = pathops.posof_token(rng, j, len(w.objs[j]._position))
             if op["op"] == "set_position":
-                op["v"] = {"posof": j}  # a.position = b.position: a live view of b's path
+                op["v"] = tok  # a.position = b.position: a live view of b's path
             elif op["op"] == "rotate":
-                op["anchor"] = {"posof": j}
+                op["anchor"] = tok
             elif op["op"] == "move":
-                op["d"] = {"posof": j}
+                op["d"] = tok
         return op
 
     def simplify_op(self, op):
